@@ -740,9 +740,12 @@ pub fn normalize(c: &mut Case) {
         let chunked = matches!(c.items[i], Item::Chunked { .. });
         if let Some(h) = c.handlers.get_mut(i) {
             if chunked {
-                // chunked bodies are only used in drain mode: the handler drops the payload first
-                h.retain(|a| !matches!(a, HAct::Read | HAct::ReadAll | HAct::Drop));
-                h.insert(0, HAct::Drop);
+                // chunked bodies are only used in drain mode: the handler drops the payload (first
+                // thing, unless the script says when) and never reads it
+                h.retain(|a| !matches!(a, HAct::Read | HAct::ReadAll));
+                if !h.contains(&HAct::Drop) {
+                    h.insert(0, HAct::Drop);
+                }
             } else if !h.contains(&HAct::Drop) {
                 // the handler of a Content-Length request reads its body to the end before it answers
                 if let Some(p) = h.iter().position(|a| matches!(a, HAct::Respond(_))) {
@@ -764,6 +767,7 @@ pub fn normalize(c: &mut Case) {
 }
 
 pub fn coq_case(c: &Case, fix21: bool) -> String {
+    let fix28 = repo_has_fix28();
     let items = coq_rle(&c.items, |it| match it {
         Item::Req { h, b } => format!("(IReq {h} {})", coq_opt_n(*b)),
         Item::Endless => "IEndless".into(),
@@ -783,11 +787,12 @@ pub fn coq_case(c: &Case, fix21: bool) -> String {
         )
     });
     format!(
-        "(mk_case {} {} {} {} {} {} {})",
+        "(mk_case {} {} {} {} {} {} {} {})",
         c.wbs,
         c.r,
         h431_for(c),
-        vh::coq_bool(fix21),
+        vh::coq_bool(fix21 && !fix28),
+        vh::coq_bool(fix28),
         items,
         handlers,
         rounds
@@ -796,6 +801,13 @@ pub fn coq_case(c: &Case, fix21: bool) -> String {
 
 /// does the tree under test carry the F21 repair? (decided from the source text, like the
 /// constants translator does; the model has both variants)
+/// does the tree carry the generalised repair (fixes/F28.patch: wake on every re-opened decode gate)?
+pub fn repo_has_fix28() -> bool {
+    let repo = std::env::var("VERIF_REPO").unwrap_or_else(|_| "/repo".into());
+    std::fs::read_to_string(format!("{repo}/actix-http/src/h1/dispatcher.rs"))
+        .map(|s| s.contains("let decode_gate_was_closed = inner.messages.len() >= MAX_PIPELINED_MESSAGES"))
+        .unwrap_or(false)
+}
 pub fn repo_has_fix21() -> bool {
     let repo = std::env::var("VERIF_REPO").unwrap_or_else(|_| "/repo".into());
     std::fs::read_to_string(format!("{repo}/actix-http/src/h1/dispatcher.rs"))
